@@ -511,11 +511,13 @@ struct Verdict {
     rtx_like: u32,
     retrans: u32,
     sr_rr: u32,
+    /// (index in `seen`, ssrc, seq, payload type, first payload byte) of every repeated (ssrc, seq) A -> B
+    dups: Vec<(usize, u32, u16, u8, u8)>,
 }
 
 /// Judge every media-looking datagram the proxy saw.
 fn judge_all(seen: &[Seen], tx_a: Option<Srtp>, tx_b: Option<Srtp>, main_ssrc_a: Option<u32>) -> Result<Verdict, Fail> {
-    let mut v = Verdict { media_ab: 0, media_ba: 0, rtcp: 0, nack: 0, bye: 0, rtx_like: 0, retrans: 0, sr_rr: 0 };
+    let mut v = Verdict { media_ab: 0, media_ba: 0, rtcp: 0, nack: 0, bye: 0, rtx_like: 0, retrans: 0, sr_rr: 0, dups: Vec::new() };
     let mut seqs_ab: std::collections::HashSet<(u32, u16)> = std::collections::HashSet::new();
     let mut ra = tx_a.map(Receiver::new);
     let mut rb = tx_b.map(Receiver::new);
@@ -547,8 +549,15 @@ fn judge_all(seen: &[Seen], tx_a: Option<Srtp>, tx_b: Option<Srtp>, main_ssrc_a:
             Some(rs::Received::Rtp { plain, .. }) => {
                 if s.dir == Dir::AtoB {
                     v.media_ab += 1;
-                    if !seqs_ab.insert((rs::rtp_ssrc(&plain), rs::rtp_seq(&plain))) {
+                    // the harness' own send_raw_rtp packets (seq 1/2 on A's SSRC) may share a sequence
+                    // number with a media packet: they are not retransmissions
+                    let raw = plain.windows(8).any(|w| w == b"RAW-DTMF");
+                    if std::env::var("C14_DUMP").is_ok() {
+                        eprintln!("  A->B #{i} ssrc={:08x} seq={} pt={} raw={raw}", rs::rtp_ssrc(&plain), rs::rtp_seq(&plain), plain[1] & 0x7f);
+                    }
+                    if !raw && !seqs_ab.insert((rs::rtp_ssrc(&plain), rs::rtp_seq(&plain))) {
                         v.retrans += 1;
+                        v.dups.push((i, rs::rtp_ssrc(&plain), rs::rtp_seq(&plain), plain[1] & 0x7f, plain.get(12).copied().unwrap_or(0)));
                     }
                     if let Some(m) = main_ssrc_a {
                         if rs::rtp_ssrc(&plain) != m {
@@ -916,6 +925,7 @@ async fn attempt(case: &PcCase, rec: &CaseRec) -> Result<bool, Fail> {
         Mode::Sdes => negotiate_sdes(case, &a, &b, dump).await?,
     };
     let mut injected = 0u32;
+    let mut asked: Option<(u32, u16, usize)> = None;
     if case.early_inject {
         injected += inject(&neg, None, pt, b"EARLY").await;
         rec.label("pc-early-inject");
@@ -973,8 +983,9 @@ async fn attempt(case: &PcCase, rec: &CaseRec) -> Result<bool, Fail> {
                         .map(|(plain, _)| (rs::rtp_ssrc(&plain), rs::rtp_seq(&plain), k.profile))
                         .last()
                 });
-                if known.is_some() {
+                if let Some((ssrc, seq, _)) = known {
                     rec.label("pc-inject-nack-for-sent-seq");
+                    asked = Some((ssrc, seq, neg.proxy.shared.seen.lock().len()));
                 }
                 injected += inject(&neg, known, pt, b"MID").await;
                 rec.label("pc-mid-inject");
@@ -1053,7 +1064,10 @@ async fn attempt(case: &PcCase, rec: &CaseRec) -> Result<bool, Fail> {
     if injected > 0 && v.nack == 0 && (v.retrans > 0 || v.rtx_like > 0) {
         return Err(fail(
             "injected-accepted:pc-nack-retransmission",
-            format!("A retransmitted ({} same-SSRC, {} RTX) although B sent no NACK; only the harness' cleartext / wrongly keyed NACKs asked for it", v.retrans, v.rtx_like),
+            format!(
+                "A retransmitted ({} same-SSRC, {} RTX) although B sent no NACK; only the harness' cleartext / wrongly keyed NACKs asked for it; injected NACK asked (ssrc, seq, datagrams seen before) {asked:?}; repeated A->B (index, ssrc, seq, pt, payload[0]) {:?}",
+                v.retrans, v.rtx_like, v.dups
+            ),
         ));
     }
     if injected > 0 && v.nack == 0 {
